@@ -132,12 +132,16 @@ fn fresh_tcp(router: &v::VRouter, c: &Conc) -> Vec<u8> {
 }
 
 /// byte segments from the cell-level cuts; cuts inside a head or body are jittered by a few bytes (never across a part boundary)
-pub fn segments(stream: &[u8], cuts: &[Value], boundaries: &[usize], hb: &[usize], seed: u64) -> Vec<Vec<u8>> {
+pub fn segments(stream: &[u8], cuts: &[Value], boundaries: &[usize], hb: &[usize], exact: &[usize], seed: u64) -> Vec<Vec<u8>> {
     let mut pos: Vec<usize> = cuts.iter().enumerate().map(|(n, c)| {
         let p = i(c) as usize * CELL;
         // a cut between a head and its own body may fall a few bytes early, inside the blank line (\r\n\r|\n ..)
         if hb.contains(&p) { return p - [0usize, 1, 2, 3, 0, 1][(seed as usize + n) % 6] }
-        if boundaries.contains(&p) { p } else {
+        // a cut between two requests may fall a few bytes early as well, inside the blank line that ends the head of a request without a body
+        // (whose head may fill the whole buffer), or inside the last bytes of a body
+        // (not where a refused request ends: `exact`)
+        if exact.contains(&p) { return p }
+        if boundaries.contains(&p) { p - [0usize, 0, 0, 1, 2, 3, 0, 0][(seed as usize / 5 + n) % 8] } else {
             // inside a head or a body: anywhere near, including the last bytes of the part
             let j = [((seed as usize + n * 7) % 41) as isize - 20, 127, -127, 1, -1][(seed as usize / 3 + n) % 5];
             (p as isize + j) as usize }
@@ -269,7 +273,8 @@ pub fn run(scn: &Value) -> Value {
         let he = stream.len() + i(&reqs[k]["h"]) as usize * CELL;
         boundaries.push(he); if i(&reqs[k]["b"]) > 0 { hb.push(he) }
         stream.extend_from_slice(&c.bytes); boundaries.push(stream.len()); ends.push(stream.len()) }
-    let segs = segments(&stream, arr(&scn["cuts"]), &boundaries, &hb, seed);
+    let bad_ends: Vec<usize> = reqs.iter().enumerate().filter(|(_, r)| r["bad"].as_bool().unwrap_or(false)).map(|(k, _)| ends[k]).collect();
+    let segs = segments(&stream, arr(&scn["cuts"]), &boundaries, &hb, &bad_ends, seed);
     // mem
     let (out, end, unread) = run_mem(&router, segs.clone());
     let mem = json!({"resp": classify(&out, &concs, &fresh), "end": end, "unread": unread});
@@ -289,13 +294,14 @@ pub fn run(scn: &Value) -> Value {
 pub fn gen(rng: &mut Rng, idx: usize) -> Value {
     let c05 = idx % 2 == 0;
     let n = rng.range(2, if c05 { 10 } else { 5 });
-    let reqs: Vec<Value> = (0..n).map(|k| json!({"h": rng.range(1, 3), "b": if rng.chance(1, 2) { 0 } else { rng.range(1, 6) }, "close": k + 1 == n && rng.chance(1, 3),
+    let reqs: Vec<Value> = (0..n).map(|k| json!({"h": if rng.chance(1, 6) { 4 } else { rng.range(1, 3) }, "b": if rng.chance(1, 2) { 0 } else { rng.range(1, 6) }, "close": k + 1 == n && rng.chance(1, 3),
         "z": rng.chance(1, 3), "mark": rng.chance(1, 3), "many": rng.chance(1, 3), "bad": false})).collect();
     let reqs: Vec<Value> = reqs.into_iter().enumerate().map(|(k, mut r)| { if k + 1 < n && rng.chance(1, 6) { r["bad"] = json!(true); r["b"] = json!(0); r["close"] = json!(false); r["h"] = json!(rng.range(2, 3)) } r }).collect();
     let anybad = reqs.iter().any(|r| r["bad"].as_bool().unwrap_or(false));
     let reqs: Vec<Value> = if !c05 && !anybad && rng.chance(1, 4) { let j = rng.below(n); reqs.into_iter().enumerate().map(|(k, mut r)| { if k == j { r["lead"] = json!(true) } r }).collect() } else { reqs };
     let mut ends = vec![]; let mut tot = 0; for r in &reqs { tot += (i(&r["h"]) + i(&r["b"])) as usize; ends.push(tot) }
-    let mut cuts: Vec<usize> = if c05 { ends[..ends.len() - 1].to_vec() } else {
+    // c05: one segment per request, or (a pipelining client) several whole requests in one; a segment still ends where a refused request ends
+    let mut cuts: Vec<usize> = if c05 { ends[..ends.len() - 1].iter().enumerate().filter(|(k, _)| reqs[*k]["bad"].as_bool().unwrap_or(false) || !rng.chance(1, 3)).map(|(_, e)| *e).collect() } else {
         let mut cs: Vec<usize> = (1..tot).filter(|_| rng.chance(1, 3)).collect();
         // keep the classes mixed: half of the c06 scenarios never coalesce two requests
         if rng.chance(1, 2) { for e in &ends[..ends.len() - 1] { if !cs.contains(e) { cs.push(*e) } } }
